@@ -165,8 +165,19 @@ def check_rotation_arc(ctx, cfg, F, H, done):
                     lt0 = (ky is not None) if sgn == 1 else (kx is not None)     # condition reads "a.b < 0"
                     if (v and lt0) or (not v and not lt0):
                         flip = not flip if mname == 'from_rotation_arc_colinear' else flip
-                elif v:
-                    singular = True      # a.b beyond +-(1 - eps): a singular branch is taken
+                else:
+                    # the singular branches start at |a.b| > 1 - m eps with a small m, eps the scalar type's own epsilon (documented: 2 eps):
+                    # a wider band would hand nearly-parallel inputs the fixed identity / half-turn instead of the small rotation they need
+                    kc = x if kx is not None else y
+                    eps = 2.0 ** -23 if tm.csize(kc) == 4 else 2.0 ** -52
+                    mgn = (1.0 - abs(k)) / eps
+                    if not (0.5 <= mgn <= 1024):
+                        bad = 'singular-branch threshold %r is 1 - %.3g epsilon of the scalar type (expected a small multiple of epsilon)' % (k, mgn)
+                        break
+                    if v:
+                        singular = True      # a.b beyond +-(1 - eps): a singular branch is taken
+            if bad:
+                break
             if unknown is not None:
                 bad = 'branch condition %s is not a comparison of a.b with a constant' % tm.show(unknown, 0, 4)[:160]
                 break
